@@ -191,6 +191,74 @@ theorem late_acquire_not_kept (cfg : Cfg) (c : Client) (l att acq : Nat) (hlate 
         injection e with e1 _
         exact absurd e1 hc
 
+/-- **Only `acquire` gives a lock**: a client that does not hold `l` does not hold it after any commands among
+which there is no `acquire l c _` of its own (in particular its prolongations never create or revive one). -/
+theorem lock_only_by_acquire (cfg : Cfg) (s : Table) (l c : Nat) (cmds : List Cmd)
+    (h : ∀ t, s l ≠ some (c, t)) (hn : ∀ t, Cmd.acquire l c t ∉ cmds) :
+    ∀ now, isAcquired cfg (run cfg s cmds) l c now = false := by
+  intro now
+  cases hq : isAcquired cfg (run cfg s cmds) l c now with
+  | false => rfl
+  | true =>
+    obtain ⟨t0, h0, _⟩ := (isAcquired_iff cfg _ l c now).mp hq
+    exact absurd h0 (not_held_run cfg cmds s l c h hn t0)
+
+/-- **Told failed ⇒ not kept** (code with `fixes/D73-…`, `comp = true`).  A `tryAcquire` whose outcome is
+reported as failed although the command may still be committed (`Timeout` of the sync call, `LEADER_CHANGED`
+on either path: `res ≠ some true`, `outcomeOpen`) submits `release l self`.  Whatever the state `s`, whenever
+the `acquire` is committed after all, whatever is committed between it and the compensating release (`mid`,
+e.g. the client's own prolongations, which prolong every lock of the client) and afterwards (`later`, as long
+as the client does not acquire `l` again): the client does not hold `l`, at any time. -/
+theorem told_failed_not_kept (cfg : Cfg) (c : Client) (l att acq : Nat) (res : Option Bool)
+    (hres : res ≠ some true) (s : Table) (mid later : List Cmd)
+    (hlater : ∀ t, Cmd.acquire l c.self t ∉ later) :
+    c.tryAcquireFinish cfg l att acq res true true = (res, [.release l c.self]) ∧
+    ∀ now, c.isAcquired cfg
+      (run cfg s (c.tryAcquireCmd l att :: mid ++ (c.tryAcquireFinish cfg l att acq res true true).2 ++ later)) l now
+        = false := by
+  have hsub : c.tryAcquireFinish cfg l att acq res true true = (res, [.release l c.self]) := by
+    unfold Client.tryAcquireFinish
+    simp [hres]
+  refine ⟨hsub, ?_⟩
+  intro now
+  rw [hsub]
+  have : run cfg s (c.tryAcquireCmd l att :: mid ++ [Cmd.release l c.self] ++ later)
+      = run cfg (run cfg (run cfg s (c.tryAcquireCmd l att :: mid)) [Cmd.release l c.self]) later := by
+    rw [← run_append, ← run_append]
+    simp
+  rw [this]
+  exact lock_only_by_acquire cfg _ l c.self later
+    (by
+      intro t
+      simp only [run, List.foldl_cons, List.foldl_nil, apply, applyRes]
+      exact release_not_held _ l c.self t) hlater now
+
+/-- non-vacuity of `told_failed_not_kept`: U = 10, attempt at 100, told LEADER_CHANGED; the acquire is committed
+anyway, the client's prolongations at 109 and 112 are committed before the compensating release, one at 115
+after it; a competitor's acquire at 116 is then granted. -/
+example :
+    let cfg : Cfg := { U := 10 }
+    let c : Client := ⟨1, 0⟩
+    let log := c.tryAcquireCmd 1 100 :: [Cmd.prolongate 1 109, .prolongate 1 112]
+      ++ (c.tryAcquireFinish cfg 1 100 106 none true true).2 ++ [Cmd.prolongate 1 115]
+    c.isAcquired cfg (stateAfter cfg (log.take 3)) 1 113 = true ∧
+      c.isAcquired cfg (stateAfter cfg log) 1 116 = false ∧
+      (acquire cfg (stateAfter cfg log) 1 2 116).2 = true := by decide
+
+/-- **D73, code before the repair (`comp = false`): told failed, lock kept.**  The wrapper submits nothing for
+a failure with an open outcome; the acquire (attempt at 100, U = 10) is committed after the client was told
+`LEADER_CHANGED` at 106 (> U/2); the client's prolongation pass prolongs every lock of the client (109, 112,
+115, 118): at 118 the client considers the lock held and a competitor's acquire is refused. -/
+theorem uncompensated_failed_acquire_kept_counterexample :
+    ∃ (cfg : Cfg) (c : Client) (l att acq now : Nat) (log : List Cmd),
+      cfg.U < 2 * (acq - att) ∧
+      c.tryAcquireFinish cfg l att acq none true false = (none, []) ∧
+      log = c.tryAcquireCmd l att :: [Cmd.prolongate c.self 109, .prolongate c.self 112, .prolongate c.self 115,
+        .prolongate c.self 118] ∧
+      c.isAcquired cfg (stateAfter cfg log) l now = true ∧
+      (acquire cfg (stateAfter cfg log) l 2 now).2 = false :=
+  ⟨{ U := 10 }, ⟨1, 0⟩, 1, 100, 106, 118, _, by decide, by decide, rfl, by decide, by decide⟩
+
 /-! ## Expiry: obtainable after the auto-unlock time -/
 
 /-- **A lock whose holder stops prolonging it becomes obtainable.**  On the replica state after any log:
